@@ -86,7 +86,7 @@ func checkC04(c *Ctx) {
 	c.Rule("C04/R6", "caches on the tidy / unit-match path are keyed by every input of the cached value (tidy cache: the unit string itself; no memo of a unit match may be keyed by one of the two units only)")
 	c.Rule("C04/R7", "in the rewrite loop a denominator token is skipped without leaving the loop and without editing")
 	p := mustLoad(c, loadOpts{}, "./benchfmt", "./benchunit", "./benchproc")
-	c04R1(c, p)
+	c04R1(c, p, "C04/R1")
 	c04R2(c, p)
 	c04R3(c, p)
 	c04R4(c, p)
@@ -97,8 +97,7 @@ func checkC04(c *Ctx) {
 
 const tidyPkg = modPath + "/benchunit"
 
-func c04R1(c *Ctx, p *Prog) {
-	const R = "C04/R1"
+func c04R1(c *Ctx, p *Prog, R string) {
 	unitF := p.Field("benchfmt", "Value", "Unit")
 	origUnitF := p.Field("benchfmt", "Value", "OrigUnit")
 	origValF := p.Field("benchfmt", "Value", "OrigValue")
